@@ -51,15 +51,48 @@ ListValued == {"encodings", "echo"}
 CapConfigs == [maxReq : Bool, maxResp : Bool, maxExt : Bool, ext : {"none", "nostorage", "storage"},
                upload : Bool, maxUpload : Bool, comp : {"zg", "g", "none"}, sticky : Bool, echo : Bool,
                proof : Bool, intro : Bool, auth : Bool]
-EnvOf(x) == [prefix |-> (x.maxReq # x.upload), cors |-> (x.sticky # x.maxUpload), pages |-> (x.maxExt # x.echo)]
-WithEnv(x) == [k \in DOMAIN x \cup {"prefix", "cors", "pages"} |->
-                 IF k \in {"prefix", "cors", "pages"} THEN EnvOf(x)[k] ELSE x[k]]
+\* ---- how the configuration is SPELLED.  The same effective configuration can be written in several ways, and the
+\* capability headers must follow the effective one:
+\*   entry       which public entry point builds the app: "wsgi" (make_wsgi_app) | "sync" (make_sync_client, which
+\*               forwards every parameter explicitly but has no CORS parameters) | "serve" (serve_http, which forwards a subset: it has no
+\*               upload-URL provider, no max_upload_bytes, no prefix and no page switches)
+\*   respAlias   the response cap is given through the deprecated alias max_stream_response_bytes
+\*   explicitOff settings that are off are passed explicitly (None / False / None) instead of being omitted
+\*   compSpell   compression_level when compression is on: omitted (default 1) | 1 | 3 | 22
+\*   ttlSpell    sticky_default_ttl: omitted (the documented default of 300 s) | a float | an int
+\* Like the environment switches they are tied to the capability switches instead of being crossed with them;
+\* SpellingsCovered (checked by TLC before enumeration) states what the tie still guarantees.
+B(b) == IF b THEN 1 ELSE 0
+Serve(x) == ~x.upload /\ ~x.maxUpload /\ x.ext # "nostorage"
+EntryOf(x) == IF Serve(x) THEN "serve" ELSE IF (x.maxExt # x.proof) THEN "sync" ELSE "wsgi"
+EnvOf(x) == [prefix |-> IF Serve(x) THEN FALSE ELSE (x.maxReq # x.upload),
+             cors |-> IF EntryOf(x) = "sync" THEN FALSE ELSE (x.sticky # x.maxUpload),   \* make_sync_client has no CORS
+             pages |-> IF Serve(x) THEN TRUE ELSE (x.maxExt # x.echo),
+             entry |-> EntryOf(x),
+             respAlias |-> (x.maxReq # x.intro),
+             explicitOff |-> (x.sticky # x.intro),
+             compSpell |-> <<"default", "1", "3", "22">>[2 * B(x.echo) + B(x.proof) + 1],
+             ttlSpell |-> <<"default", "float", "int">>[((B(x.maxReq) + 2 * B(x.maxResp) + B(x.upload)) % 3) + 1]]
+EnvKeys == {"prefix", "cors", "pages", "entry", "respAlias", "explicitOff", "compSpell", "ttlSpell"}
+WithEnv(x) == [k \in DOMAIN x \cup EnvKeys |-> IF k \in EnvKeys THEN EnvOf(x)[k] ELSE x[k]]
 InSlice(x) == Slice = "full" \/ (x.auth /\ (x.maxResp = x.maxExt) /\ (x.proof = x.intro))
 Configs == {WithEnv(x) : x \in {y \in CapConfigs : InSlice(y)}}
 BoolSwitches == {"maxReq", "maxResp", "maxExt", "upload", "maxUpload", "sticky", "echo", "proof", "intro"}
 EnvPairsCovered == \A e \in {"prefix", "cors", "pages"} : \A k \in BoolSwitches : \A ve \in Bool : \A vk \in Bool :
                       \E x \in Configs : x[e] = ve /\ x[k] = vk
 ASSUME EnvPairsCovered
+SpellingsCovered ==
+  \* the alias, and the direct spelling, of the response cap through every entry point
+  /\ \A en \in {"wsgi", "sync", "serve"} : \A al \in Bool : \E x \in Configs : x.entry = en /\ x.maxResp /\ x.respAlias = al
+  \* every entry point with every capability switch on and off (serve_http cannot express upload / maxUpload)
+  /\ \A en \in {"wsgi", "sync", "serve"} : \A k \in BoolSwitches : \A vk \in Bool :
+        (en = "serve" /\ k \in {"upload", "maxUpload"} /\ vk) \/ \E x \in Configs : x.entry = en /\ x[k] = vk
+  \* omitted vs explicit "off" for every switch that is off, on the entry point where it matters
+  /\ \A k \in BoolSwitches : \A ex \in Bool : \E x \in Configs : x.entry = "wsgi" /\ ~x[k] /\ x.explicitOff = ex
+  \* every compression-level spelling with compression on, every TTL spelling with sticky on
+  /\ \A sp \in {"default", "1", "3", "22"} : \A cm \in {"zg", "g"} : \E x \in Configs : x.comp = cm /\ x.compSpell = sp
+  /\ \A sp \in {"default", "float", "int"} : \E x \in Configs : x.sticky /\ x.ttlSpell = sp
+ASSUME SpellingsCovered
 
 \* a route kind is applicable to a configuration when the request can be made at all
 Applicable(cfg, r) ==
@@ -107,7 +140,7 @@ Scalar(cfg, vals, h) ==
     [] h = "maxresp"    -> vals.maxResp
     [] h = "maxext"     -> vals.maxExt
     [] h = "maxupload"  -> vals.maxUpload
-    [] h = "ttl"        -> vals.ttl
+    [] h = "ttl"        -> IF cfg.ttlSpell = "default" THEN "300" ELSE vals.ttl      \* documented default: 300 s
     [] h = "extenabled" -> IF cfg.ext = "storage" THEN "true" ELSE "false"
     [] OTHER            -> "true"
 ListOf(cfg, vals, h) == IF h = "encodings" THEN Encodings(cfg) ELSE vals.echo
@@ -123,6 +156,10 @@ RouteIndependent(c) == Expected([c EXCEPT !.routes = <<>>]) = Expected(c)
 EnvironmentIndependent(c) ==      \* prefix, CORS and the pages never change the advertised capabilities
   \A p \in Bool, q \in Bool, r \in Bool :
      Expected([c EXCEPT !.cfg = [c.cfg EXCEPT !.prefix = p, !.cors = q, !.pages = r]]) = Expected(c)
+SpellingIndependent(c) ==         \* ... and neither does the way the effective configuration is written down
+  \A en \in {"wsgi", "sync", "serve"}, al \in Bool, ex \in Bool, sp \in {"default", "1", "3", "22"} :
+     Expected([c EXCEPT !.cfg = [c.cfg EXCEPT !.entry = en, !.respAlias = al, !.explicitOff = ex, !.compSpell = sp]])
+       = Expected(c)
 UploadBytesNeedsProvider(c) == Emitted(c.cfg, "maxupload") => Emitted(c.cfg, "upload")
 StickyFamily(c) == /\ Emitted(c.cfg, "ttl") <=> Emitted(c.cfg, "sticky")
                    /\ Emitted(c.cfg, "echo") => Emitted(c.cfg, "sticky")
@@ -154,7 +191,7 @@ Conforms(c, o) ==
                  /\ o.probe.maxResp = Opt(cfg.maxResp, o.vals.maxResp)
                  /\ o.probe.maxExt = Opt(cfg.maxExt, o.vals.maxExt)
                  /\ o.probe.maxUpload = Opt(cfg.upload /\ cfg.maxUpload, o.vals.maxUpload)
-                 /\ o.probe.ttl = Opt(cfg.sticky, o.vals.ttl)
+                 /\ o.probe.ttl = Opt(cfg.sticky, Scalar(cfg, o.vals, "ttl"))
                  /\ o.probe.ext = (cfg.ext = "storage")
                  /\ o.probe.upload = cfg.upload
                  /\ o.probe.sticky = cfg.sticky
